@@ -515,7 +515,13 @@ func checkAggCase(res *Result, ac *aggCase, U []absSig, idx int, repeats int) {
 				}
 				for i := range got {
 					if i < len(want) && (!reflect.DeepEqual(got[i].IDs, want[i].IDs) || got[i].First != want[i].First) {
-						res.violation(mk("C13", "order", route+": bucket order differs from the specification's comparator", idLists(want), idLists(got)))
+						f := mk("C13", "order", route+": bucket order differs from the specification's comparator", idLists(want), idLists(got))
+						if len(got) > 0 && !got[0].First {
+							f.What += "; the bucket of the first goroutine is not first"
+							res.violation(f)
+						} else {
+							res.drift(f) // a different order among buckets the contract does not rank (this universe has no location / main-package differences)
+						}
 						break
 					}
 				}
@@ -525,7 +531,7 @@ func checkAggCase(res *Result, ac *aggCase, U []absSig, idx int, repeats int) {
 						byIDs[fmt.Sprint(w.IDs)] = w.Sig
 					}
 					for _, g := range got {
-						if w, ok := byIDs[fmt.Sprint(g.IDs)]; ok && !reflect.DeepEqual(w, g.Sig) {
+						if w, ok := byIDs[fmt.Sprint(g.IDs)]; ok && !reflect.DeepEqual(starNorm(w, len(g.IDs) > 1), starNorm(g.Sig, len(g.IDs) > 1)) {
 							res.violation(mk("C12", "generalise", route+": merged signature differs from Generalise(members)", w, g.Sig))
 							break
 						}
@@ -537,6 +543,32 @@ func checkAggCase(res *Result, ac *aggCase, U []absSig, idx int, repeats int) {
 			}
 		}
 	}
+}
+
+// starNorm drops what C12 does not speak about: under the wildcard the value that happens to be
+// kept, and (for merged buckets) the inaccuracy marker of arguments the members agree on.
+func starNorm(s absSig, merged bool) absSig {
+	var fix func(a []absArg) []absArg
+	fix = func(a []absArg) []absArg {
+		out := make([]absArg, len(a))
+		for i, x := range a {
+			if x.Name == "*" {
+				x.V, x.Ptr, x.Big, x.Inacc = 0, false, false, false
+			}
+			if merged {
+				x.Inacc = false
+			}
+			x.F = fix(x.F)
+			out[i] = x
+		}
+		return out
+	}
+	out := s
+	out.Fr = append([]absFrame{}, s.Fr...)
+	for i := range out.Fr {
+		out.Fr[i].Args.V = fix(out.Fr[i].Args.V)
+	}
+	return out
 }
 
 type discard struct{}
